@@ -70,6 +70,15 @@ func (c clause) sibling(d clause) bool {
 	return ok && id(c.raw) == id(d.raw)
 }
 
+// same checks if c and d are the very same stored clause. The clause term doesn't tell: the identity of an atom is its
+// value, so all the facts of a predicate without arguments look alike.
+func (c clause) same(d clause) bool {
+	if len(c.bytecode) == 0 || len(d.bytecode) == 0 {
+		return id(c.raw) == id(d.raw)
+	}
+	return &c.bytecode[0] == &d.bytecode[0]
+}
+
 func compileClause(head Term, body Term, env *Env) (clause, error) {
 	var c clause
 	c.compileHead(head, env)
